@@ -136,13 +136,7 @@ theorem phase_twin_rough (s c : Sys) (hg : Good iss s) (hf : FInv iss mt s) (ta 
     show ta2.outgoing.oneshot = []
     rw [ea2'.2]
     exact fA.one
-  have hidle' : IdleB ta' tb' := by
-    refine ⟨by rw [ptb, tbt]; simp, ?_⟩
-    refine keepOk_empty tb' (hg'.ext.tcb .B tb' hs'.hb).keep ((hg'.conv.full.inv.link .B).snd tb' hs'.hb).1
-      (hg'.sent_lt .B tb' hs'.hb) ?_
-    rcases hs'.b.lastack with h | ⟨h, hl, _⟩
-    · exact h
-    · rw [hoa'] at hl; cases hl
+  have hidle' : IdleB ta' tb' := ⟨by rw [ptb, tbt]; simp⟩
   refine ⟨s6, c6, ta', tb', ph, hr, hg', hs', hidle', pta, phc, rc06, ?_, h6sa, h6sb⟩
   rw [hrA] at k6a k6da
   exact ⟨by rw [hta']; exact k6a, by rw [htb']; exact k6b, by rw [k6sa, h6sa]; exact tw.sa,
